@@ -350,7 +350,10 @@ class _Tunnel(Interface):
         async with self._send_lock:
             # don't drop frames when reconnecting - wait for reconnect to finish
             if self._reconnect_task is not None:
-                await self._wait_for_reconnect(self._reconnect_task)
+                if not await self._wait_for_reconnect(self._reconnect_task):
+                    raise CommunicationError(
+                        "Sending telegram failed. Reconnect was cancelled."
+                    )
             yield
 
     @staticmethod
@@ -385,7 +388,8 @@ class _Tunnel(Interface):
 
     async def _tunnelling_request(self, raw_cemi: bytes) -> None:
         """Send CEMI Frame to tunnelling server."""
-        if self.communication_channel is None:
+        if self.communication_channel is None or self._disconnect_requested:
+            # disconnect() closes the channel - nothing follows its DisconnectRequest
             raise CommunicationError(
                 "Sending telegram failed. No active communication channel."
             )
